@@ -7,7 +7,7 @@ reference interpreter's check on the generator's AST for all pairs of names up t
 import time
 
 from . import lvs, monitors, refcodec as rc
-from .common import raising_site
+from .common import raising_site, set_debug_logging
 
 from ndn.app_support.light_versec import compile_lvs, Checker, SemanticError, LvsModelError
 from ndn.app_support.light_versec import binary as bny
@@ -20,6 +20,7 @@ RULE = ('generated schemas with signing relations (chains over 3 levels, alterna
 
 FRESH = [rc.comp(8, b'zz')]
 DIGEST = rc.comp(1, bytes(32))
+PDIGEST = rc.comp(2, bytes(range(32)))
 
 
 def run(ctx):
@@ -37,6 +38,10 @@ def run(ctx):
             schema = lvs.gen_schema(rng, with_signers=True, n_rules=rng.randint(3, 7))
         text = lvs.schema_text(schema)
         FNS_LIB, FNS_REF = lvs.fns_for(schema)
+        # the application's log level is no input: every fourth schema is compiled and asked about with the library's loggers at DEBUG
+        set_debug_logging(si % 4 == 1)
+        if si % 4 == 1:
+            ctx.event('schema-checked-while-the-application-logs-at-DEBUG')
         if schema.get('default_fns'):
             ctx.event('schema-checked-with-the-built-in-functions')
         w = {'schema': text}
@@ -169,6 +174,20 @@ def run(ctx):
             if pi % 7 == 0:
                 variants.append((pkt + [DIGEST], key, 'pkt+digest'))
                 variants.append((pkt, key + [DIGEST], 'key+digest'))
+            extra_plain = []
+            if pi % 7 == 3:
+                # a trailing ParametersSha256Digest component (type 2) looks like a digest too, but is part of the name: judged as such
+                extra_plain = [(pkt + [PDIGEST], key), (pkt, key + [PDIGEST])]
+            for (p3, k3) in extra_plain:
+                try:
+                    got3 = bool(checker.check(p3, k3))
+                    exp3 = ref.check(p3, k3)
+                    ctx.event('name-ending-in-a-parameters-digest-component')
+                    if got3 != exp3:
+                        ctx.report(('yes-although-not-allowed' if got3 else 'no-although-allowed') + ':trailing-parameters-digest',
+                                   f'check({rc.name_to_uri(p3, canonical=True)}, {rc.name_to_uri(k3, canonical=True)}) = {got3}, schema says {exp3} (a trailing ParametersSha256Digest component is an ordinary component)', w)
+                except Exception as e:   # noqa
+                    ctx.report(f'check-raises:{type(e).__name__}@{raising_site(e)[0]}', f'{e!r}', w)
             for (p2, k2, vl) in variants:
                 wn = dict(w, pkt=rc.name_to_uri(p2, canonical=True), key=rc.name_to_uri(k2, canonical=True))
                 for label, ck in (('direct', checker),) + ((('loaded', loaded),) if pi % 5 == 0 else ()) + \
@@ -203,9 +222,10 @@ def run(ctx):
                         ctx.report(mech, f'{label}: check({wn["pkt"]}, {wn["key"]}) = {got}, schema says {exp}', wn if nfail <= 3 else None)
             ctx.case((text, tuple(pkt), tuple(key)), nontrivial=any(r in signed_rules for r, b in ref.match(pkt)),
                      sample=dict(w, pkt=rc.name_to_uri(pkt, canonical=True), key=rc.name_to_uri(key, canonical=True), expected=exp) if exp and ctx.evaluations % 9000 == 1 else None)
+    set_debug_logging(False)
     lvs.REENTER['checker'] = None
     ctx.extra['user_function_calls_that_re_entered_the_checker'] = lvs.REENTER['calls']
-    for k in ('user-functions-provided-after-construction', 'user-functions-replaced-after-construction', 'schema-text-compiled-twice', 'rival-checker-with-same-named-functions', 'schema-with-functions-that-re-enter-their-checker'):
+    for k in ('schema-checked-while-the-application-logs-at-DEBUG', 'user-functions-provided-after-construction', 'user-functions-replaced-after-construction', 'schema-text-compiled-twice', 'rival-checker-with-same-named-functions', 'schema-with-functions-that-re-enter-their-checker'):
         ctx.need_event(k)
     ctx.need_class('template-schema')
     ctx.need_event('model-without-symbol-table')
